@@ -85,6 +85,8 @@ def run(tier, seed, replay_file=None):
         chk.violation("build", {"what": "the harness no longer builds against /repo's working tree", "log": out[-3000:],
                                 "broken": ["correspondence C01: harness build failed"]}, no_input=True)
         return chk.finish(proof)
+    if os.environ.get("GV_SELFTEST_CASES_C01"):     # own self-tests only (patched scratch trees under load): fewer cases
+        ncases = int(os.environ["GV_SELFTEST_CASES_C01"])
     rc, so, se, cases, dt = gv.run_harness(binp, ["--seed", seed, "--cases", ncases, "--tier", tier, "--prop", "c01"],
                                            os.path.join(gv.BUILD, "out", "c01%s.jsonl" % TAG))
     if rc != 0:
